@@ -74,6 +74,16 @@ func baseCreate(op, ps, fault string, calls *int32) (any, error) {
 		if len(p) == 2 {
 			return ro.Range(int64(p[0]), int64(p[1])), nil
 		}
+	case "RangeWithStep":
+		// integral bounds and step: every value is an integer, and float arithmetic on integers of this size is exact
+		if len(p) == 3 && p[2] > 0 {
+			return ro.Map(func(f float64) int {
+				if f != float64(int(f)) {
+					return -999999 // not integral: shows as a wrong value
+				}
+				return int(f)
+			})(ro.RangeWithStep(float64(p[0]), float64(p[1]), float64(p[2]))), nil
+		}
 	case "Repeat":
 		if len(p) == 2 && p[1] >= 0 {
 			return ro.Repeat(p[0], int64(p[1])), nil
@@ -262,6 +272,18 @@ func genCreate(tier string, seed int64, only string) []*Case {
 	for i := 0; i < nr; i++ {
 		s := r.Intn(41) - 20
 		bases = append(bases, base{"Range", intsString([]int{s, s + r.Intn(25) - 12}), "-"})
+	}
+	// RangeWithStep: spans that are / are not a multiple of the step, steps larger than the span, both directions
+	for s := -2; s <= 2; s += 2 {
+		for e := -lim - 2; e <= lim+2; e++ {
+			for _, st := range []int{1, 2, 3} {
+				bases = append(bases, base{"RangeWithStep", intsString([]int{s, e, st}), "-"})
+			}
+		}
+	}
+	for i := 0; i < nr; i++ {
+		s := r.Intn(41) - 20
+		bases = append(bases, base{"RangeWithStep", intsString([]int{s, s + r.Intn(31) - 15, 1 + r.Intn(6)}), "-"})
 	}
 	for _, item := range []int{0, 5} {
 		for _, n := range []int{0, 1, 2, 3, 5, 9} {
